@@ -6,7 +6,7 @@ the number of native calls, assumptions must not leak to paths without the call,
 """
 import textwrap
 
-INTS2 = [(0, 0), (1, -1), (-2, 3), (3, 2), (-1, -3), (5, 0), (2, 2), (-4, 1)]
+INTS2 = [(0, 0), (1, -1), (-2, 3), (3, 2), (-1, -3), (5, 0)]
 INTS1 = [(0,), (1,), (-1,), (3,), (-5,), (7,)]
 OPT2 = [(None, 1), (2, 0), (None, 0), (0, 3), (-1, -1), (4, None), (None, None)]
 
